@@ -1,6 +1,7 @@
 package main
 
 import (
+	"regexp"
 	"fmt"
 	"go/types"
 	"strings"
@@ -302,6 +303,9 @@ func (eng *Engine) verifyFunctionSpec(fn *ssa.Function, modes Modes, spec map[st
 		}
 		// cited lemmas: "use lemma(args)" instantiates the lemma's ensures at entry (its requires become obligations)
 		for _, u := range ct.Uses {
+			if usesResult(u) {
+				continue // instantiated at every return (checkPost)
+			}
 			top.useLemma(u, st0)
 		}
 	}
@@ -353,6 +357,11 @@ func (a *Act) checkPost(r retInfo) {
 		}
 		return
 	}
+	for _, u := range a.ct.Uses {
+		if usesResult(u) {
+			a.applyLemmaR(u, r.st, nil, r.reach, r.vals)
+		}
+	}
 	for i, cl := range a.ct.Ensures {
 		for j, c := range a.evalClauseAt(cl, r.st, nil, r.vals) {
 			o := g.oblige("post", fmt.Sprintf("%s:%s", clauseLabel(cl, i, j), a.srcDetail(r.instr)), r.reach, c, a.pos(r.instr.Pos()), "ensures "+cl.Text)
@@ -377,3 +386,8 @@ func (a *Act) useLemma(u *Clause, st *State) {
 	g.note("use clauses are evaluated by the lemma layer")
 	a.applyLemma(u, st, nil, "true")
 }
+
+var resultWordRe = regexp.MustCompile(`\b(result[0-9]*|err)\b`)
+
+// usesResult: the lemma instantiation mentions the function's results: it is applied at the returns, not at entry
+func usesResult(u *Clause) bool { return resultWordRe.MatchString(u.Text) }
